@@ -221,6 +221,27 @@ def world_focus_rounds():
     return w
 
 
+def world_focus_valsets():
+    """C07/C09/C06/C10 (exhaustive cover): the validator set shrinks at height 2 and grows back at height 3; late votes of the
+    removed validator for the committing height; restarts at every height."""
+    w = base_world()
+    w["valsets"]["T"] = {"keys": [1, 2, 3], "pow": [1, 1, 1]}
+    hdr = {}
+    hdr["D1"] = {"h": 1, "prev": "gen", "vs": "G", "nvs": "T", "pcpR": 0, "pcpPkh": "none", "pcp": {}, "data": "D1"}
+    hdr["D2"] = {"h": 2, "prev": "D1", "vs": "T", "nvs": "G", "pcpR": 0, "pcpPkh": "G", "pcp": {"D1": ok(1, 2, 3)}, "data": "D2"}
+    hdr["D3"] = {"h": 3, "prev": "D2", "vs": "G", "nvs": "G", "pcpR": 0, "pcpPkh": "T", "pcp": {"D2": ok(1, 2, 3)}, "data": "D3"}
+    w["hdr"] = hdr
+    V = [vote("precommit", 1, 0, {"D1": ok(1, 2, 3)}), vote("precommit", 1, 0, {"D1": ok(4)}), vote("prevote", 1, 0, {"D1": ok(4)}),
+         vote("precommit", 2, 0, {"D2": ok(1, 2, 3)}, "T"), vote("precommit", 2, 0, {"D2": ok(1, 2)}, "T"),
+         vote("precommit", 3, 0, {"D3": ok(4)}, "G"), vote("prevote", 3, 1, {"D3": ok(1, 4)}, "G")]
+    w["votes"] = S(V)
+    w["phs"] = S([ph("D1", 0, 1), ph("D2", 0, 2), ph("D3", 0, 4)])
+    w["replays"] = S([])
+    w["smentr"] = S([{"h": 2, "r": 0, "pub": 1}, {"h": 3, "r": 0, "pub": 4}])
+    w["smvotes"] = S([{"kind": "precommit", "target": "D2"}])
+    return w
+
+
 def world_wide():
     """C09: every message class at every position relative to the node: heights 0..3, rounds 0..3, every
     proof shape, proposers inside/outside the set, replays for any height/round."""
@@ -272,7 +293,7 @@ def world_wide():
 
 WORLDS = {"wide": world_wide, "consumers": world_consumers, "happy": world_happy, "adversarial": world_adversarial, "equivocation": world_equivocation,
           "equivocation_heavy": lambda: world_equivocation((3, 1, 1, 2)), "replay": world_replay, "valsets": world_valsets,
-          "focus_rounds": world_focus_rounds}
+          "focus_rounds": world_focus_rounds, "focus_valsets": world_focus_valsets}
 
 
 def to_sets(v):
